@@ -7,8 +7,8 @@ func init() {
 		Scope: Scope{Include: []string{"pkg/mpc/sharing/accessstructures/", "pkg/mpc/sharing/scheme/"}}})
 	register(&propSpec{ID: "C04", StoreScope: Scope{Include: []string{"pkg/mpc/"}, Exclude: []string{"pkg/mpc/sharing/"}}, MinStores: 50, FrameScope: Scope{Include: []string{"pkg/mpc/"}, Exclude: []string{"pkg/mpc/sharing/", "pkg/mpc/rvole/", "pkg/mpc/session/", "pkg/mpc/zero/przs/"}}, MinFrame: 5, MinFuncs: 150, Check: checkC04,
 		Scope: Scope{Include: []string{"pkg/mpc/", "pkg/network/mpc.go", "pkg/base/errors.go"}, Exclude: []string{"pkg/mpc/sharing/"}}})
-	register(&propSpec{ID: "C05", SeqScope: Scope{Include: []string{"pkg/mpc/sharing/vss/", "pkg/mpc/base.go"}}, MinSeq: 20, MinFuncs: 20, Check: checkC05,
-		Scope: Scope{Include: []string{"pkg/mpc/sharing/vss/", "pkg/base/mat/module_valued.go", "pkg/mpc/base.go"}}})
+	register(&propSpec{ID: "C05", SeqScope: Scope{Include: []string{"pkg/mpc/sharing/vss/", "pkg/mpc/sharing/scheme/kw/", "pkg/mpc/base.go"}}, MinSeq: 20, MinFuncs: 20, Check: checkC05,
+		Scope: Scope{Include: []string{"pkg/mpc/sharing/vss/", "pkg/mpc/sharing/scheme/kw/", "pkg/base/mat/module_valued.go", "pkg/mpc/base.go"}}})
 	register(&propSpec{ID: "C06", SeqScope: Scope{Include: []string{"pkg/mpc/redistribute/", "pkg/mpc/zero/hjky/"}}, MinSeq: 8, StoreScope: Scope{Include: []string{"pkg/mpc/redistribute/", "pkg/mpc/zero/hjky/"}}, MinStores: 3, MinFuncs: 8, Check: checkC06,
 		Scope: Scope{Include: []string{"pkg/mpc/redistribute/", "pkg/mpc/zero/hjky/"}}})
 	register(&propSpec{ID: "C07", MinFuncs: 150, MinFrame: 30, Check: checkC07,
